@@ -30,6 +30,9 @@ def run(ctx):
         retag(ctx, c03.rule_table, 'C05.K1', repo, lg)
         ctx.rules[-1].title = 'commitment table: for every hash type, exactly the fields the consensus table names reach the signed digest (legacy path used by signer and verifier)'
     rule_wiring(ctx, repo)
+    from . import c09
+    base_, imm_, mut_ = c09.classes(repo)
+    c09.rule_R6(ctx, repo, eng, imm_, mut_, rid='C05.F2')
     rule_shared(ctx, repo)
     it = Interp(repo)
     retag(ctx, c06.rule_multisig, 'C05.M1', repo, it)
@@ -61,6 +64,13 @@ def rule_wiring(ctx, repo):
     r.check(rets == ['False', 'key.verify(h, %s)' % sig], 'verify-call', cs.site, 'empty signature -> False; otherwise key.verify(digest, DER)', '_CheckSig returns %s' % rets)
     calls = [norm(c) for c in common.iter_calls(cs.node) if norm(c.func) == 'key.set_pubkey']
     r.check(calls == ['key.set_pubkey(%s)' % pub] and a.get('key') == ['bitcoin.core.key.CECKey()'], 'pubkey', cs.site, 'fresh key loaded with the public key from the stack', 'key setup: %s %s' % (a.get('key'), calls))
+    # ... and fresh on every call: set_pubkey() on a key object that already holds a point keeps the old point when the new
+    # bytes do not parse (o2i_ECPublicKey leaves it), so a key object handed in or kept from the last check verifies
+    # against the previous public key
+    fresh = [s_ for s_ in cs.node.body if isinstance(s_, ast.Assign) and norm(s_.targets[0]) == 'key' and norm(s_.value) == 'bitcoin.core.key.CECKey()']
+    r.check(bool(fresh) and 'key' not in cs.params, 'pubkey:fresh-per-check', cs.site, 'the key object is created unconditionally inside _CheckSig',
+            'the key object of _CheckSig %s: a public key that does not parse leaves the previous point in place, and the signature is checked against it'
+            % ('is a parameter (shared between checks)' if 'key' in cs.params else 'is not created unconditionally at the top level of the function'))
     # order: hashtype taken before sig is shortened
     body = [norm(s) for s in cs.node.body]
     ok = 'hashtype = %s[-1]' % sig in body and '%s = %s[:-1]' % (sig, sig) in body and body.index('hashtype = %s[-1]' % sig) < body.index('%s = %s[:-1]' % (sig, sig))
